@@ -1576,7 +1576,35 @@ impl<'t> B<'t> {
                     self.stmt_top(&c, &mut body, None, Some(K::Var));
                 }
                 let def = if self.chance(1, 2) { K::FuncDef } else { K::MixinDef };
+                // a global that is read just before the definition (so a cached lookup points at the
+                // global scope) and shadowed by a local declaration just after it: the closure must
+                // see the local one when it runs
+                let shadow: Option<String> = if self.chance(1, 2) {
+                    let locals: Vec<String> = self.scopes[1..].iter().flatten().cloned().collect();
+                    let g: Vec<String> = self.scopes[0]
+                        .iter()
+                        .filter(|n| ty_of_name(n) == Ty::Int && !n.starts_with('w') && !locals.contains(n))
+                        .cloned()
+                        .collect();
+                    if g.is_empty() {
+                        None
+                    } else {
+                        Some(g[self.pick(g.len())].clone())
+                    }
+                } else {
+                    None
+                };
+                if let Some(g) = &shadow {
+                    body.push(Stmt::Decl { prop: PROPS[self.pick(PROPS.len())].to_string(), value: Expr::Var(g.clone()) });
+                    self.nstmts += 1;
+                }
                 self.stmt_top(&c, &mut body, None, Some(def));
+                if let Some(g) = &shadow {
+                    let value = self.expr(Ty::Int, 2);
+                    self.define(g);
+                    body.push(Stmt::Var { name: g.clone(), value, default: false, global: false });
+                    self.nstmts += 1;
+                }
                 let n = 2 + self.pick(4);
                 for _ in 0..n {
                     if self.nstmts >= self.cfg.max_stmts {
